@@ -247,6 +247,14 @@ func c05Run(c *Ctx) {
 			}
 		}
 	}
+	// 2b2. comments closed with any number of stars around and inside control flow are blanks
+	for _, cm := range []string{"/** doc **/", "/**** banner ****/", "/***/", "/* plain */", "/** odd ***/", "/*//*/"} {
+		src := pre + Lines(Var("i", "0"), cm, While("i < 6", "{ i = i + 1; "+cm+" "+If("i % 2 == 0", "{ "+Continue()+" }")+" "+cm+"\n"+Print("i")+" }"), cm+" "+For(Var("j", "0"), "j < 5", "j = j + 1", "{ "+cm+" "+If("j == 3", Break())+" "+Print("j")+" /* tail */ }"),
+			IfElse("i == 6", cm+" "+Print(`"six"`), cm+" "+Print(`"other"`)), cm, Print(`"end"`), "/* last */")
+		if c.Mine() {
+			c05Judge(c, &Case{Gen: "comment-shapes", Src: src})
+		}
+	}
 	// 2c. conditions that are comparisons whose operands are traced probes yielding every kind of value:
 	// each operand is evaluated once per test, whatever it yields
 	for _, items := range []string{`["a", "b", nil]`, `[1, 2, "", 3]`, `[` + True() + `, ` + True() + `, ` + False() + `]`, `["x", "x", "y"]`, `[nil, nil, 0]`, `[[1], [2], nil]`} {
@@ -401,6 +409,6 @@ func init() {
 		Assumptions: []string{"every generated loop is bounded by construction; programs the model cannot finish in 200000 steps are skipped"},
 		Run:         c05Run,
 		Judge:       c05Judge,
-		MustCount:   func(c *Ctx) []string { return []string{"gen:loop-skeletons", "gen:empty-bodies", "gen:long-running-loops", "gen:arm-selection", "gen:stray-signals", "gen:stray-signals-after-history", "gen:else-if-chains", "gen:comparison-conditions", "gen:loop-as-arm", "gen:reentrant-loops", "gen:repl-after-stray", "breaks_taken", "continues_taken", "then_arms", "else_arms", "fault:StrayBreak", "fault:StrayContinue", "fault:StrayReturn", "cli_runs"} },
+		MustCount:   func(c *Ctx) []string { return []string{"gen:loop-skeletons", "gen:empty-bodies", "gen:long-running-loops", "gen:arm-selection", "gen:stray-signals", "gen:stray-signals-after-history", "gen:else-if-chains", "gen:comparison-conditions", "gen:comment-shapes", "gen:loop-as-arm", "gen:reentrant-loops", "gen:repl-after-stray", "breaks_taken", "continues_taken", "then_arms", "else_arms", "fault:StrayBreak", "fault:StrayContinue", "fault:StrayReturn", "cli_runs"} },
 	})
 }
